@@ -2,6 +2,7 @@ package main
 
 import (
 	"bytes"
+	"sort"
 	"context"
 	"crypto/sha256"
 	"encoding/hex"
@@ -78,6 +79,79 @@ func runSolver(ctx context.Context, sp solverSpec, file string, secs int) (statu
 	}
 }
 
+// sexprArgs splits "(op a b c)" into op and its top-level arguments.
+func sexprArgs(s string) (string, []string) {
+	s = strings.TrimSpace(s)
+	if len(s) < 2 || s[0] != '(' || s[len(s)-1] != ')' {
+		return "", nil
+	}
+	parts := splitTop(s[1 : len(s)-1])
+	if len(parts) == 0 {
+		return "", nil
+	}
+	return parts[0], parts[1:]
+}
+
+// conjuncts splits a goal along implications, universal quantifiers and conjunctions:
+// (=> A (and c1 c2)) gives (=> A c1), (=> A c2). A goal that is not a conjunction comes back alone.
+func conjuncts(goal string) []string {
+	op, args := sexprArgs(goal)
+	switch {
+	case op == "and" && len(args) > 0:
+		var out []string
+		for _, a := range args {
+			out = append(out, conjuncts(a)...)
+		}
+		return out
+	case op == "=>" && len(args) == 2:
+		var out []string
+		for _, c := range conjuncts(args[1]) {
+			out = append(out, "(=> "+args[0]+" "+c+")")
+		}
+		return out
+	case op == "forall" && len(args) == 2:
+		var out []string
+		for _, c := range conjuncts(args[1]) {
+			out = append(out, "(forall "+args[0]+" "+c+")")
+		}
+		return out
+	}
+	return []string{goal}
+}
+
+// solveSplit: a goal no solver decided as a whole is tried conjunct by conjunct; it is proved if every conjunct is.
+func solveSplit(j *VCJob, stage1, stage2 int, allSolvers bool) bool {
+	cs := conjuncts(simpTerm(j.Obl.Goal))
+	if len(cs) < 2 || len(cs) > 40 {
+		return false
+	}
+	var b strings.Builder
+	b.WriteString(j.Unit.Header)
+	b.WriteString("; " + j.Unit.Name + "#" + j.Obl.Name + " (one conjunct)\n")
+	for _, a := range j.Obl.Assume {
+		b.WriteString("(assert " + simpTerm(a) + ")\n")
+	}
+	head := b.String()
+	by := map[string]bool{}
+	for i, c := range cs {
+		f := strings.TrimSuffix(j.File, ".smt2") + fmt.Sprintf("_c%d.smt2", i)
+		os.WriteFile(f, []byte(head+"(assert (not "+c+"))\n(check-sat)\n"), 0644)
+		sub := &VCJob{Unit: j.Unit, Obl: j.Obl, File: f}
+		solveOne(sub, stage1, stage2, allSolvers)
+		if sub.Status != "unsat" {
+			return false
+		}
+		by[sub.By] = true
+	}
+	var names []string
+	for n := range by {
+		names = append(names, n)
+	}
+	sort.Strings(names)
+	j.Status, j.By, j.Output = "unsat", "split("+fmt.Sprint(len(cs))+"):"+strings.Join(names, "+"), ""
+	return true
+}
+
 // solveOne: stage 1 is z3 5.1 alone with a short limit; stage 2 races z3 4.8.12, cvc5 and z3 5.1 with another seed.
 func solveOne(j *VCJob, stage1, stage2 int, allSolvers bool) {
 	t0 := time.Now()
@@ -103,7 +177,7 @@ func solveOne(j *VCJob, stage1, stage2 int, allSolvers bool) {
 			}
 			agree += n + " "
 		}
-		if strings.Contains(agree, "z3-new ") || strings.Contains(agree, "z3 ") { // at least one z3 proved it and no solver refuted it
+		if agree != "" { // at least one solver proved it and none refuted it (cvc5 alone decides some define-fun-rec goals)
 			j.Status, j.By, j.Output = "unsat", strings.ReplaceAll(strings.TrimSpace(agree), " ", "+"), ""
 		}
 		return
@@ -190,6 +264,9 @@ func Discharge(jobs []*VCJob, dir string, stage1, stage2 int, allSolvers bool) {
 				return
 			}
 			solveOne(j, stage1, stage2, allSolvers)
+			if j.Status == "unknown" || j.Status == "timeout" {
+				solveSplit(j, stage1, stage2, allSolvers)
+			}
 			if j.Status != "unsat" && key != "" {
 				mu.Lock()
 				failedObl[key]++
